@@ -55,17 +55,17 @@ Section Witness.
       apply first_sym_eps_true in E. destruct Y as [c|C]; simpl in E; [destruct E | now apply Hs1].
   Qed.
 
-  Lemma first_table_wit fi : first_table G = Some fi -> wit_inv fi.
+  Lemma first_table_wit O fi : orders_ok G (o_first O) -> first_table G O = Some fi -> wit_inv fi.
   Proof.
-    intros E. unfold first_table in E.
-    eapply (sat_loop_inv (first_pass G) wit_inv); [| |exact E].
-    - intros st Hs. unfold first_pass.
+    intros HO E. unfold first_table in E.
+    eapply (sat_loop_inv (fun i => first_pass (o_first O i)) wit_inv); [| |exact E].
+    - intros j st Hs. unfold first_pass.
       assert (X : forall l, incl l (prods G) -> forall st, wit_inv st ->
                     wit_inv (fold_left (fun st p => first_body (head p) (body p) st) l st)).
       { induction l as [|p l IH]; intros Hl st0 H0; simpl; [exact H0|].
         apply IH; [intros y Hy; apply Hl; now right|].
         apply (first_body_wit p (Hl p (or_introl eq_refl)) (body p) []); auto. apply derives_refl. }
-      apply X; [apply incl_refl | exact Hs].
+      apply X; [intros p Hp; now apply (HO j) | exact Hs].
     - split; [intros ? ? [] | intros ? []].
   Qed.
 
@@ -82,18 +82,20 @@ End Witness.
 Section Term.
   Variable G : gram.
   Variables fi fo : list fact.
-  Hypothesis Ef : first_table G = Some fi.
-  Hypothesis Eo : follow_table G fi = Some fo.
+  Variable O : oracle.
+  Hypothesis HO : oracle_ok G O.
+  Hypothesis Ef : first_table G O = Some fi.
+  Hypothesis Eo : follow_table G O fi = Some fo.
   Let M := table_build G fi fo.
   Hypothesis HD : table_deterministic M.
 
-  Let F1 : first_sound G fi := proj1 (first_table_props G fi Ef).
-  Let F2 : first_closed G fi := proj1 (proj2 (first_table_props G fi Ef)).
-  Let F3 : incl fi (first_universe G) := proj2 (proj2 (first_table_props G fi Ef)).
+  Let F1 : first_sound G fi := proj1 (first_table_props G O (proj1 (proj2 HO)) fi Ef).
+  Let F2 : first_closed G fi := proj1 (proj2 (first_table_props G O (proj1 (proj2 HO)) fi Ef)).
+  Let F3 : incl fi (first_universe G) := proj2 (proj2 (first_table_props G O (proj1 (proj2 HO)) fi Ef)).
 
   Lemma fo_closed : follow_closed G fi fo.
   Proof.
-    destruct (follow_table_props G fi F1 F2 F3) as [fo' [Eo' [_ [_ [Hc _]]]]].
+    destruct (follow_table_props G fi F1 F2 F3 O (proj2 (proj2 HO))) as [fo' [Eo' [_ [_ [Hc _]]]]].
     rewrite Eo in Eo'. now inversion Eo'; subst.
   Qed.
 
@@ -177,7 +179,7 @@ Section Term.
       apply table_build_cell in Hp. destruct Hp as [Hp [EA Hs]]. subst A.
       destruct (F2 p Hp) as [C1 C2]. apply select_In in Hs.
       destruct Hs as [[a [-> Ha]]|[Hn Hx]].
-      + exists false. apply first_stuck. apply (proj1 (first_table_wit G fi Ef)). now apply C1.
+      + exists false. apply first_stuck. apply (proj1 (first_table_wit G O fi (proj1 (proj2 HO)) Ef)). now apply C1.
       + exists true. apply nullable_fact_erased; auto.
     - pose proof (HD A x) as Hl. rewrite E in Hl. simpl in Hl. lia.
   Qed.
